@@ -115,19 +115,20 @@ Variable uri_parse : bytes -> option bytes.
 Definition strings_of (l : list json) : list bytes :=
   flat_map (fun e => match e with JStr s => [s] | _ => [] end) l.
 
-Lemma endpoint_objects_first : forall l,
-  endpoint_objects_ok uri_ok l = true ->
-  match strings_of l with [] => True | u :: _ => uri_ok u = true end.
+Lemma endpoint_objects_all : forall l,
+  endpoint_objects_ok uri_ok l = true -> Forall (fun u => uri_ok u = true) (strings_of l).
 Proof.
   unfold strings_of.
   induction l as [|e l IH]; intros H.
-  - exact I.
+  - constructor.
   - destruct e as [| b | n | s | l' | m']; simpl in H; simpl; try (apply IH; exact H).
-    unfold validate_uri in H. apply andb_true_iff in H. destruct H as [_ H]. exact H.
+    apply andb_true_iff in H. destruct H as [Hu Hr].
+    unfold validate_uri in Hu. apply andb_true_iff in Hu. destruct Hu as [_ Hu].
+    constructor; auto.
 Qed.
 
 Lemma service_entry_rules : forall m,
-  service_entry_ok uri_ok m = true -> service_rules uri_ok service_endpoints_checked m.
+  service_entry_ok uri_ok m = true -> service_rules uri_ok service_endpoints m.
 Proof.
   intros m H. unfold service_entry_ok, max_service_type_length in H.
   apply andb_true_iff in H. destruct H as [H Hep].
@@ -135,19 +136,18 @@ Proof.
   apply andb_true_iff in H. destruct H as [Hid Hne].
   apply Nat.leb_le in Hle. apply negb_true_iff in Hne. apply Nat.eqb_neq in Hne.
   split; [exact Hid|]. split; [lia|].
-  unfold service_endpoints_checked, service_endpoints.
+  unfold service_endpoints.
   unfold service_endpoint_ok in Hep.
   destruct (member "serviceEndpoint" m) as [e|]; [|constructor].
   destruct e; try constructor.
   - unfold validate_uri in Hep. apply andb_true_iff in Hep. apply Hep.
   - constructor.
-  - apply endpoint_objects_first in Hep. fold (strings_of l).
-    destruct (strings_of l); constructor; auto.
+  - apply endpoint_objects_all in Hep. exact Hep.
 Qed.
 
 Lemma services_rules : forall svcs,
   services_ok uri_ok svcs = true ->
-  Forall (service_rules uri_ok service_endpoints_checked) svcs /\ NoDup (map entry_id svcs).
+  Forall (service_rules uri_ok service_endpoints) svcs /\ NoDup (map entry_id svcs).
 Proof.
   intros svcs H. unfold services_ok in H. apply andb_true_iff in H. destruct H as [Hall Hnd].
   split.
@@ -163,7 +163,7 @@ Proof. intros [|] H; [reflexivity|discriminate]. Qed.
 Lemma validate_patch_rules : forall p,
   validate_patch_out uri_ok uri_parse p = VAccept ->
   Forall key_rules (patch_keys p) /\ NoDup (map entry_id (patch_keys p))
-  /\ Forall (service_rules uri_ok service_endpoints_checked) (patch_services p)
+  /\ Forall (service_rules uri_ok service_endpoints) (patch_services p)
   /\ NoDup (map entry_id (patch_services p))
   /\ (forall ops, patch_jsonpatch p = Some ops -> jsonpatch_paths_ok ops = true).
 Proof.
@@ -207,7 +207,7 @@ Qed.
 
 Lemma validate_patches_rules : forall enabled ps,
   validate_patches_out uri_ok uri_parse enabled ps = VAccept ->
-  Forall (patch_rules uri_ok service_endpoints_checked enabled) ps.
+  Forall (patch_rules uri_ok service_endpoints enabled) ps.
 Proof.
   intros enabled ps. induction ps as [|p ps IH]; intros H.
   - constructor.
@@ -220,17 +220,18 @@ Proof.
     + apply validate_patch_rules. exact Ev.
 Qed.
 
-(* THEOREM validated_rules (the form the code satisfies).
+(* THEOREM validated_rules.
    An accepted delta has at least one patch, and for every patch: its action is configured and enabled;
    every key entry has a 1-50 byte URL-safe id, a type permitted for each declared purpose (each purpose
    being one of the five allowed ones) and exactly one key-material member; key ids are pairwise
    distinct within the patch; every service entry has a 1-50 byte URL-safe id, a type of 1-30 bytes,
-   and its CHECKED endpoints (a string endpoint, or only the first string of an endpoint array) are
-   valid URIs; service ids are pairwise distinct; the operations of a JSON patch passed the path check.
-   The full-strength statement (all endpoints) is refuted below. *)
+   and ALL its endpoints (a string endpoint, or every string element of an endpoint array) are valid
+   URIs; service ids are pairwise distinct; every operation of a JSON patch passed the pointer check
+   on "path" and "from".  (Before commit e1e5aec only the first string of an endpoint array was
+   checked; the old counterexample is [old_bad_endpoint_now_rejected] below.) *)
 Theorem validated_rules : forall enabled ps,
   validate_delta_patches uri_ok uri_parse enabled ps = true ->
-  ps <> [] /\ Forall (patch_rules uri_ok service_endpoints_checked enabled) ps.
+  ps <> [] /\ Forall (patch_rules uri_ok service_endpoints enabled) ps.
 Proof.
   intros enabled ps H. unfold validate_delta_patches, validate_delta_patches_out in H.
   destruct ps as [|p ps]; [discriminate|].
@@ -241,46 +242,53 @@ Qed.
 
 End Oracles.
 
-(* ---------- refutations (each input confirmed against the real code) ---------- *)
+(* ---------- the inputs that used to slip through (each confirmed against the repaired code) ---------- *)
 
 (* decidable stand-in for url.ParseRequestURI, exact on the two URIs used here *)
 Definition uri_ok_demo (u : bytes) : bool := has_prefix (B "https://") u.
 Definition uri_parse_demo (u : bytes) : option bytes := Some u.
 
 (* {"action":"add-services","services":[{"id":"s","type":"t","serviceEndpoint":["https://ok","not a uri"]}]}
-   is accepted by patchvalidator.Validate / ValidateDelta *)
+   was accepted before commit e1e5aec; it is rejected now *)
 Definition bad_endpoint_patch : json :=
   JObj [(B "action", JStr (B "add-services"));
         (B "services", JArr [JObj [(B "id", JStr (B "s")); (B "type", JStr (B "t"));
                                    (B "serviceEndpoint", JArr [JStr (B "https://ok"); JStr (B "not a uri")])]])].
 
-Theorem validated_rules_refuted :
-  exists ps, validate_delta_patches uri_ok_demo uri_parse_demo all_actions ps = true
-             /\ ~ Forall (patch_rules uri_ok_demo service_endpoints all_actions) ps.
-Proof.
-  exists [bad_endpoint_patch]. split; [vm_compute; reflexivity|].
-  intros HF. inversion HF as [|p l Hp _]. subst.
-  destruct Hp as [_ [_ [_ [Hs _]]]].
-  cbn in Hs. inversion Hs as [|m l Hm _]. subst.
-  destruct Hm as [_ [_ Heps]].
-  cbn in Heps. inversion Heps as [|u l _ Hrest]. subst.
-  inversion Hrest as [|u l Hbad _]. subst. vm_compute in Hbad. discriminate.
-Qed.
+Example old_bad_endpoint_now_rejected :
+  validate_delta_patches uri_ok_demo uri_parse_demo all_actions [bad_endpoint_patch] = false.
+Proof. reflexivity. Qed.
 
-(* the entries of a key / service array that are not objects are skipped, not rejected:
+(* still true: entries of a key / service array that are not objects are skipped, not rejected:
    {"action":"add-public-keys","publicKeys":["junk"]} is accepted and carries no key at all *)
 Example non_object_entries_accepted :
   validate_patch uri_ok_demo uri_parse_demo
     (JObj [(B "action", JStr (B "add-public-keys")); (B "publicKeys", JArr [JStr (B "junk")])]) = true.
 Proof. reflexivity. Qed.
 
-(* the validator panics instead of rejecting:
-   {"action":"ietf-json-patch","patches":[{"op":"add","path":null,"value":1}]} *)
-Example validator_panics :
+(* {"action":"ietf-json-patch","patches":[{"op":"add","path":null,"value":1}]} made the validator panic
+   before commit cb19e9e; it is an ordinary rejection now, and the model never yields VPanic *)
+Example null_path_now_rejected :
   validate_patch_out uri_ok_demo uri_parse_demo
     (JObj [(B "action", JStr (B "ietf-json-patch"));
-           (B "patches", JArr [JObj [(B "op", JStr (B "add")); (B "path", JNull); (B "value", JNum 1)]])]) = VPanic.
+           (B "patches", JArr [JObj [(B "op", JStr (B "add")); (B "path", JNull); (B "value", JNum 1)]])]) = VReject.
 Proof. reflexivity. Qed.
+
+Lemma jsonpatch_ops_never_panic : forall l, jsonpatch_ops_out l <> VPanic.
+Proof.
+  induction l as [|o l IH]; cbn [jsonpatch_ops_out]; [discriminate|].
+  assert (Ho : jsonpatch_op_out o = VAccept \/ jsonpatch_op_out o = VReject).
+  { unfold jsonpatch_op_out. destruct o; auto.
+    destruct (jlast (B "path") m); auto.
+    match goal with |- vbool ?b = _ \/ _ => destruct b; cbn; auto end. }
+  destruct Ho as [Ho|Ho]; rewrite Ho; cbn; [exact IH|discriminate].
+Qed.
+
+Lemma jsonpatch_paths_never_panic : forall ops, jsonpatch_paths_out ops <> VPanic.
+Proof.
+  intros ops. unfold jsonpatch_paths_out. destruct ops; try discriminate.
+  destruct (forallb _ l); [apply jsonpatch_ops_never_panic|discriminate].
+Qed.
 
 (* hypotheses of [validated_rules] hold for a non-trivial delta *)
 Example validated_rules_nonvacuous :
@@ -288,7 +296,7 @@ Example validated_rules_nonvacuous :
     [JObj [(B "action", JStr (B "add-public-keys")); (B "publicKeys", JArr [ex_key])];
      JObj [(B "action", JStr (B "add-services"));
            (B "services", JArr [JObj [(B "id", JStr (B "s")); (B "type", JStr (B "t"));
-                                      (B "serviceEndpoint", JStr (B "https://ok"))]])];
+                                      (B "serviceEndpoint", JArr [JStr (B "https://ok"); JStr (B "https://also-ok")])]])];
      JObj [(B "action", JStr (B "ietf-json-patch"));
-           (B "patches", JArr [JObj [(B "op", JStr (B "add")); (B "path", JStr (B "/x")); (B "value", JNum 1)]])]] = true.
+           (B "patches", JArr [JObj [(B "op", JStr (B "move")); (B "from", JStr (B "/x")); (B "path", JStr (B "/y"))]])]] = true.
 Proof. reflexivity. Qed.
